@@ -39,6 +39,52 @@ use std::time::{Duration, SystemTime, UNIX_EPOCH};
 #[cfg(feature = "streaming-redis")]
 use redis::{Client, Commands};
 
+/// Verification hook (only with `--cfg rre_verif`; absent from normal builds).
+///
+/// A thread-local clock override for this file: `StateEntry` creation / expiry and
+/// checkpoint-id generation read `SystemTime::now().duration_since(UNIX_EPOCH)`; under the
+/// cfg those functions import the two shim names below, which return the injected
+/// millisecond when one is set on the current thread and the system clock otherwise.
+#[cfg(rre_verif)]
+pub mod verif_clock {
+    use std::cell::Cell;
+    use std::time::Duration;
+
+    thread_local! {
+        static NOW_MS: Cell<Option<u64>> = const { Cell::new(None) };
+    }
+
+    /// `Some(ms)`: every clock read in `streaming::state` on this thread returns `ms`;
+    /// `None`: back to the system clock.
+    pub fn set_ms(ms: Option<u64>) {
+        NOW_MS.with(|c| c.set(ms));
+    }
+
+    pub struct UnixEpoch;
+    pub const UNIX_EPOCH: UnixEpoch = UnixEpoch;
+    pub struct SystemTime(Duration);
+
+    impl SystemTime {
+        pub fn now() -> Self {
+            match NOW_MS.with(|c| c.get()) {
+                Some(ms) => SystemTime(Duration::from_millis(ms)),
+                None => SystemTime(
+                    std::time::SystemTime::now()
+                        .duration_since(std::time::UNIX_EPOCH)
+                        .unwrap(),
+                ),
+            }
+        }
+
+        pub fn duration_since(
+            &self,
+            _epoch: UnixEpoch,
+        ) -> Result<Duration, std::convert::Infallible> {
+            Ok(self.0)
+        }
+    }
+}
+
 /// Result type for state operations
 pub type StateResult<T> = Result<T, RuleEngineError>;
 
@@ -106,6 +152,8 @@ struct StateEntry {
 
 impl StateEntry {
     fn new(value: Value, ttl: Option<Duration>) -> Self {
+        #[cfg(rre_verif)]
+        use verif_clock::{SystemTime, UNIX_EPOCH};
         let now = SystemTime::now()
             .duration_since(UNIX_EPOCH)
             .unwrap()
@@ -120,6 +168,8 @@ impl StateEntry {
     }
 
     fn is_expired(&self) -> bool {
+        #[cfg(rre_verif)]
+        use verif_clock::{SystemTime, UNIX_EPOCH};
         if let Some(ttl) = self.ttl {
             let now = SystemTime::now()
                 .duration_since(UNIX_EPOCH)
@@ -134,6 +184,8 @@ impl StateEntry {
     }
 
     fn update(&mut self, value: Value) {
+        #[cfg(rre_verif)]
+        use verif_clock::{SystemTime, UNIX_EPOCH};
         self.value = value;
         self.updated_at = SystemTime::now()
             .duration_since(UNIX_EPOCH)
@@ -484,6 +536,8 @@ impl StateStore {
 
     /// Create a checkpoint of current state
     pub fn checkpoint(&mut self, name: impl Into<String>) -> StateResult<String> {
+        #[cfg(rre_verif)]
+        use verif_clock::{SystemTime, UNIX_EPOCH};
         // The wall-clock millisecond alone is not unique: two checkpoints taken within the same
         // millisecond would share one directory. A per-store sequence suffix keeps ids distinct
         // (zero-padded so that ids still sort chronologically).
